@@ -12,7 +12,7 @@ CASE_TIMEOUT_S = 60   # bundles hold up to 22k strings (~1 s); a single hanging 
 RULE = ('language space: all strings of <=L tokens over a 28-token alphabet (BFS by length, bundled by 2-token prefix); '
         'mutation space: delete / insert any token / swap neighbours / duplicate at every character position of every '
         'valid string of the C01 level<=1 space; pumping: every <=3-token string with each token repeated 1..8 times; '
-        'deferred validation: 13 slots (incl. global rules on absent residues, termini, with an isotope label) x 36 unresolvable values x 6 calls; non-trivial = contains a bracket or separator '
+        'deferred validation: 13 slots (incl. global rules on absent residues, termini, with an isotope label) x 43 unresolvable values x 6 calls; non-trivial = contains a bracket or separator '
         'token (language), any mutant (mutation)')
 ASSUMPTIONS = ['"an error" = any ValueError subclass (all peptacular errors derive from ValueError)',
                'is_sequence_valid must never raise, must be False for rejected text and True for text that parses to a single-chain annotation',
@@ -28,10 +28,15 @@ CORPUS_MUST_RAISE = ['Foo', 'U:99999', 'UNIMOD:xyz', 'M:notaname', 'X:99999', 'R
                      'U:', 'UNIMOD:', 'M:', 'PSI-MOD:', 'X:', 'XLMOD:', 'R:', 'G:', 'GNO:', 'Obs:', 'U:+', 'Obs:-', 'U: 35',
                      # a formula with unreadable characters before or between well-formed terms
                      'Formula:2C', 'Formula:xC2', 'Formula:c2H4O', 'Formula:C2 H4', 'Formula:C2+H', 'Formula:C2H4ss',
-                     'Formula:xH0', 'Glycan:xHex', 'Glycan:Hex Hex']
+                     'Formula:xH0', 'Glycan:xHex', 'Glycan:Hex Hex',
+                     # a second colon field
+                     'Formula:C2:H2', 'Glycan:Hex:2', 'Glycan:Hex:Foo', 'Obs:1:5', 'Obs:+1:x', 'U:+1:5', 'U:35:x']
 # macro tokens: whole notation elements, so that short sequences reach well-formed groups followed by one odd element
 MACRO = ['PEK', 'K', '[1]', '^2', '/2', '[+Na+]', '-', '?', '(', ')', '<13C>', '<[1]@K>', '{1}', '+', '//', '[Oxidation]',
          '^', '/', '\\\\', '[']
+# comp()/comp_mass() keep an unknown element symbol in the composition they return (it is not counted as zero; asking
+# for the mass of that composition raises)
+COMP_KEEPS_UNKNOWN_SYMBOL = {'Formula:Zz2', 'INFO:a|Formula:Zz2'}
 SLOTS = ['labile', 'static', 'unknown', 'nterm', 'r0', 'iv', 'cterm', 'rlast',
          'static:C', 'static:N-Term', 'static:C-Term', 'static+13C', 'static:C+13C']   # static:C = rule on a residue the peptide lacks
 
@@ -269,6 +274,10 @@ def check(case, ctx):
             ctx.evals += 1
             if st == 'err' and not isinstance(v, ValueError):
                 ctx.fail('deferred-foreign-exception', 'value or ValueError', v, text=s, call=name)
+            elif st == 'ok' and not absent and val not in COMP_KEEPS_UNKNOWN_SYMBOL and \
+                    not (name == 'fragment' and slot == 'labile'):   # fragment ions do not carry labile modifications
+                # asking for the composition (or anything derived from mass / composition) raises as well
+                ctx.fail('deferred-silent', 'ValueError', str(v)[:120], text=s, call=name)
         if not slot.startswith('static'):
             for name, fn in (('mod_mass', lambda: p.mod_mass(val)), ('mod_comp', lambda: p.mod_comp(val))):
                 st, v = lib.call(fn)
